@@ -7,42 +7,86 @@ import netgen
 from netgen import B, Op, T
 
 
-def _conv_net(rng, label, **kw):
-    dtype = kw.pop("dtype", "int8")
-    ifm = kw.pop("ifm", [1, 8, 8, 4])
-    b = B(rng, "c16", dtype)
-    x = b.input(ifm)
-    kind = kw.pop("kind", "conv")
-    if kind == "conv":
-        y = b.conv(x, kw.pop("oc", 4), kw.pop("k", (3, 3)), kw.pop("stride", (1, 1)), kw.pop("dil", (1, 1)), kw.pop("padding", "SAME"), **kw)
-    elif kind == "dw":
-        y = b.dwconv(x, kw.pop("k", (3, 3)), kw.pop("stride", (1, 1)), kw.pop("dil", (1, 1)), kw.pop("padding", "SAME"), **kw)
-    else:
-        y = b.transpose_conv(x, kw.pop("oc", 4), kw.pop("k", (3, 3)), kw.pop("stride", (2, 2)), kw.pop("padding", "SAME"))
-    if y is None:
-        return None
-    return b.finish([y])
+QUANT = ("int8", "uint8", "int16")
 
 
-def single(rng, builder, dtype="int8", ifm=(1, 8, 8, 4), post=None):
-    """one operator built by `builder(b, x)` on a fresh input"""
+class Variants(list):
+    """the same operator alone and embedded between accelerated neighbours: [(label suffix, Net)]"""
+
+
+def _pre(b, x):
+    """an accelerated producer that keeps the shape: 1x1 convolution for rank 4, RELU otherwise"""
+    xt = b.t(x)
+    if len(xt.shape) == 4 and xt.dtype in QUANT and xt.shape[3] <= 64:
+        return b.conv(x, xt.shape[3], (1, 1), (1, 1), (1, 1), "SAME", per_channel=False)
+    return b.unary("RELU", x)
+
+
+def _post(b, y):
+    """an accelerated consumer of tensor y (None when y cannot feed one: unquantised / other data types)"""
+    yt = b.t(y)
+    if yt.dtype not in QUANT or not yt.scales or len(yt.scales) != 1 or len(yt.shape) > 4 or len(yt.shape) == 0:
+        return y
+    if any(d <= 0 for d in yt.shape):
+        return y
+    if len(yt.shape) == 4 and yt.shape[0] == 1 and yt.shape[3] <= 64:
+        return b.conv(y, yt.shape[3], (1, 1), (1, 1), (1, 1), "SAME", per_channel=False) or y
+    return b.unary("RELU", y)
+
+
+def _one(rng, builder, dtype, ifm, post, embed):
     b = B(rng, "c16", dtype)
     x = b.input(list(ifm))
+    if embed:
+        x = _pre(b, x)
+    tgt = len(b.net.ops)
     y = builder(b, x)
     if y is None:
         return None
     outs = y if isinstance(y, list) else [y]
+    if embed:
+        outs = [_post(b, o) for o in outs]
     net = b.finish(outs)
+    net.tgt = tgt          # index of the operator under test
     if post:
         post(b, net)
     return net
+
+
+def single(rng, builder, dtype="int8", ifm=(1, 8, 8, 4), post=None):
+    """the operator built by `builder(b, x)` (a) alone on a fresh input, (b) between accelerated neighbours
+    (1x1 CONV_2D / RELU -> X -> 1x1 CONV_2D / RELU)"""
+    v = Variants()
+    for suffix, embed in (("", False), (" [between NPU ops]", True)):
+        net = _one(rng, builder, dtype, ifm, post, embed)
+        if net is not None:
+            v.append((suffix, net))
+    return v
+
+
+def _conv_net(rng, label, **kw):
+    dtype = kw.pop("dtype", "int8")
+    ifm = kw.pop("ifm", [1, 8, 8, 4])
+    kind = kw.pop("kind", "conv")
+
+    def bld(b, x):
+        k2 = dict(kw)
+        if kind == "conv":
+            return b.conv(x, k2.pop("oc", 4), k2.pop("k", (3, 3)), k2.pop("stride", (1, 1)), k2.pop("dil", (1, 1)), k2.pop("padding", "SAME"), **k2)
+        if kind == "dw":
+            return b.dwconv(x, k2.pop("k", (3, 3)), k2.pop("stride", (1, 1)), k2.pop("dil", (1, 1)), k2.pop("padding", "SAME"), **k2)
+        return b.transpose_conv(x, k2.pop("oc", 4), k2.pop("k", (3, 3)), k2.pop("stride", (2, 2)), k2.pop("padding", "SAME"))
+    return single(rng, bld, dtype=dtype, ifm=ifm)
 
 
 def cases(rng, thorough=False):
     out = []
 
     def add(label, net):
-        if net is not None:
+        if isinstance(net, Variants):
+            for suffix, n in net:
+                add(label + suffix, n)
+        elif net is not None:
             net.desc.append(label)
             out.append((label, net))
 
@@ -67,14 +111,13 @@ def cases(rng, thorough=False):
         add(f"conv faf={act}", _conv_net(rng, "", act=act))
 
     def conv_mod(label, fn, **kw):
-        net = _conv_net(rng, "", **kw)
-        if net is not None:
+        for suffix, net in _conv_net(rng, "", **kw):
             fn(net)
-            add(label, net)
+            add(label + suffix, net)
 
     def bias_vals(vals, dtype="int64"):
         def f(net):
-            bt = net.tensors[net.ops[0].inputs[2]]
+            bt = net.tensors[net.ops[net.tgt].inputs[2]]
             bt.dtype = dtype
             d = np.zeros(bt.shape, dtype=np.int64)
             d[: len(vals)] = vals
@@ -86,7 +129,7 @@ def cases(rng, thorough=False):
 
     def bias_dtype(dt):
         def f(net):
-            bt = net.tensors[net.ops[0].inputs[2]]
+            bt = net.tensors[net.ops[net.tgt].inputs[2]]
             bt.dtype = dt
             bt.data = np.zeros(bt.shape, dtype=netgen.NP[dt])
         return f
@@ -95,27 +138,27 @@ def cases(rng, thorough=False):
         conv_mod(f"conv bias dtype={dt}", bias_dtype(dt))
 
     def bias_2d(net):
-        bt = net.tensors[net.ops[0].inputs[2]]
+        bt = net.tensors[net.ops[net.tgt].inputs[2]]
         bt.shape = [1] + list(bt.shape)
         bt.data = np.asarray(bt.data).reshape(bt.shape)
     conv_mod("conv bias 2-D", bias_2d)
 
     def dyn_weights(net):
-        wt = net.tensors[net.ops[0].inputs[1]]
+        wt = net.tensors[net.ops[net.tgt].inputs[1]]
         wt.data = None
-        net.inputs.append(net.ops[0].inputs[1])
+        net.inputs.append(net.ops[net.tgt].inputs[1])
     conv_mod("conv dynamic weights", dyn_weights)
     conv_mod("dwconv dynamic weights", dyn_weights, kind="dw")
 
     def w_dtype16(net):
-        wt = net.tensors[net.ops[0].inputs[1]]
+        wt = net.tensors[net.ops[net.tgt].inputs[1]]
         wt.dtype = "int16"
         wt.data = np.asarray(wt.data).astype(np.int16)
     conv_mod("conv int16 weights", w_dtype16, dtype="int16")
 
     def no_quant(idx):
         def f(net):
-            t = net.tensors[net.ops[0].inputs[idx]] if idx >= 0 else net.tensors[net.ops[0].outputs[0]]
+            t = net.tensors[net.ops[net.tgt].inputs[idx]] if idx >= 0 else net.tensors[net.ops[net.tgt].outputs[0]]
             t.scales, t.zps = None, None
         return f
     for idx, nm in ((0, "ifm"), (1, "weights"), (-1, "ofm")):
@@ -123,7 +166,7 @@ def cases(rng, thorough=False):
 
     def big_weights(v, zp=0):
         def f(net):
-            wt = net.tensors[net.ops[0].inputs[1]]
+            wt = net.tensors[net.ops[net.tgt].inputs[1]]
             wt.data = np.full(wt.shape, v, dtype=np.int8)
             wt.zps = [zp] * len(wt.scales)
         return f
@@ -131,24 +174,35 @@ def cases(rng, thorough=False):
         conv_mod(f"conv weights sum v={v} zp={zp}", big_weights(v, zp), ifm=[1, 4, 4, 16], oc=2, k=(64, 64), per_channel=False)
 
     def asym_weights(net):
-        wt = net.tensors[net.ops[0].inputs[1]]
+        wt = net.tensors[net.ops[net.tgt].inputs[1]]
         wt.zps = [3] * len(wt.scales)
     conv_mod("conv int8 asymmetric weights", asym_weights, per_channel=False)
     conv_mod("conv groups 2", lambda net: None, ifm=[1, 8, 8, 4])
 
     def groups(kic, oc):
         def f(net):
-            wt = net.tensors[net.ops[0].inputs[1]]
+            wt = net.tensors[net.ops[net.tgt].inputs[1]]
             o, kh, kw, _ = wt.shape
             wt.shape = [oc, kh, kw, kic]
             wt.data = np.zeros(wt.shape, dtype=np.int8)
             wt.scales, wt.zps = [wt.scales[0]], [0]
-            bt = net.tensors[net.ops[0].inputs[2]]
+            bt = net.tensors[net.ops[net.tgt].inputs[2]]
             bt.shape, bt.data, bt.scales, bt.zps = [oc], np.zeros([oc], dtype=np.int32), [bt.scales[0]], [0]
-            net.tensors[net.ops[0].outputs[0]].shape[3] = oc
+            net.tensors[net.ops[net.tgt].outputs[0]].shape[3] = oc
         return f
     for kic, oc in ((2, 4), (3, 4), (2, 3), (1, 4)):
         conv_mod(f"conv groups kernel_ic={kic} oc={oc}", groups(kic, oc), per_channel=False)
+    # grouped convolutions outside a documented range: they stay on the CPU as ONE operator (convert_conv_groups must not touch them)
+    for lab, kw in (("stride 4x4", dict(stride=(4, 4), k=(1, 1), padding="VALID", ifm=[1, 9, 9, 4])), ("stride 1x5", dict(stride=(1, 5), k=(1, 1), padding="VALID", ifm=[1, 8, 9, 4])),
+                    ("dilated height 65", dict(k=(33, 1), dil=(2, 1))), ("batch 2", dict(ifm=[2, 8, 8, 4])), ("in range", dict(stride=(2, 2)))):
+        for kic, oc in ((2, 4), (1, 4), (2, 6)):
+            conv_mod(f"conv groups kernel_ic={kic} oc={oc} {lab}", groups(kic, oc), per_channel=False, **kw)
+
+    def groups_int16_weights(net):
+        groups(2, 4)(net)
+        wt = net.tensors[net.ops[net.tgt].inputs[1]]
+        wt.dtype, wt.data = "int16", np.zeros(wt.shape, dtype=np.int16)
+    conv_mod("conv groups 2 int16 weights", groups_int16_weights, per_channel=False, dtype="int16")
     # depthwise
     for s in ((1, 1), (2, 2), (3, 3), (4, 4), (1, 4)):
         add(f"dwconv stride={s}", _conv_net(rng, "", kind="dw", stride=s, k=(2, 2), padding="VALID", ifm=[1, 8, 8, 4]))
@@ -161,9 +215,9 @@ def cases(rng, thorough=False):
     add("tconv 2x1 ih=1 kh=1", _conv_net(rng, "", kind="tconv", ifm=[1, 1, 4, 4], k=(1, 3), stride=(1, 2), padding="SAME"))
 
     def tconv_bad_ofm(net):
-        o = net.tensors[net.ops[0].outputs[0]]
+        o = net.tensors[net.ops[net.tgt].outputs[0]]
         o.shape[1] += 1
-        st = net.tensors[net.ops[0].inputs[0]]
+        st = net.tensors[net.ops[net.tgt].inputs[0]]
         st.data = np.asarray(o.shape, dtype=np.int32)
     conv_mod("tconv ofm height off by one", tconv_bad_ofm, kind="tconv", ifm=[1, 4, 4, 4])
 
@@ -201,9 +255,9 @@ def cases(rng, thorough=False):
         add(f"fc {dt}", single(rng, lambda b, x: b.fc(x, 8), ifm=(1, 16), dtype=dt))
 
     def fc_dyn(b, net):
-        wt = net.tensors[net.ops[0].inputs[1]]
+        wt = net.tensors[net.ops[net.tgt].inputs[1]]
         wt.data = None
-        net.inputs.append(net.ops[0].inputs[1])
+        net.inputs.append(net.ops[net.tgt].inputs[1])
     add("fc dynamic weights", single(rng, lambda b, x: b.fc(x, 8), ifm=(1, 16), post=fc_dyn))
     # ---- binary elementwise ---------------------------------------------------------------------------------------
     bshapes = [((1, 4, 4, 8), (1, 4, 4, 8)), ((1, 4, 4, 8), (1, 1, 1, 8)), ((1, 4, 4, 8), (1, 1, 1, 1)), ((1, 4, 4, 8), (8,)), ((1, 4, 4, 8), (1, 4, 1, 8)),
@@ -363,6 +417,53 @@ def cases(rng, thorough=False):
         b.t(o).scales = [b.t(o).scales[0] * 2]
         return o
     add("RESHAPE quantisation mismatch", single(rng, reshape_qmismatch))
+    # memory-only operators that violate a listed constraint: they must remain in the output file as themselves
+    def reshape_like(kind, how):
+        def f(b, x):
+            xt = b.t(x)
+            n = int(np.prod(xt.shape))
+            if kind == "RESHAPE":
+                oshape = [1, n]
+                o = b.reshape(x, oshape)
+            elif kind == "SQUEEZE":
+                oshape = [d for d in xt.shape if d != 1] or [1]
+                o = b.fm(oshape, xt.dtype, scale=xt.scales[0] if xt.scales else None, zp=xt.zps[0] if xt.zps else None)
+                b.net.ops.append(Op("SQUEEZE", [x], [o], ("SqueezeOptions", dict(SqueezeDims=[i for i, d in enumerate(xt.shape) if d == 1]))))
+            else:
+                oshape = list(xt.shape[1:]) if len(xt.shape) == 4 and xt.shape[0] == 1 else list(xt.shape)
+                ax = b.const([1], "int32", [0])
+                # EXPAND_DIMS of a rank-3 view: feed it a squeezed tensor first so the result is rank 4 again
+                if len(xt.shape) == 4:
+                    sq = b.fm(oshape, xt.dtype, scale=xt.scales[0] if xt.scales else None, zp=xt.zps[0] if xt.zps else None)
+                    b.net.ops.append(Op("RESHAPE", [x, b.const([len(oshape)], "int32", oshape)], [sq], ("ReshapeOptions", dict(NewShape=oshape))))
+                    x = sq
+                o = b.fm([1] + oshape, xt.dtype, scale=xt.scales[0] if xt.scales else None, zp=xt.zps[0] if xt.zps else None)
+                b.net.ops.append(Op("EXPAND_DIMS", [x, ax], [o], ("ExpandDimsOptions", {})))
+            op = b.net.ops[-1]
+            ot, it = b.t(o), b.t(op.inputs[0])
+            if how == "quant scale":
+                ot.scales = [ot.scales[0] * 2]
+            elif how == "quant zero point":
+                ot.zps = [ot.zps[0] + 1 if ot.zps[0] < 100 else ot.zps[0] - 1]
+            elif how == "no quant":
+                ot.scales, ot.zps = None, None
+            elif how == "dynamic shape" and kind == "RESHAPE":
+                st = b.net.add(T(b.fresh("input"), [len(oshape)], "int32"))
+                b.net.inputs.append(st)
+                op.inputs[1] = st
+            elif how == "elements":
+                ot.shape = list(ot.shape[:-1]) + [ot.shape[-1] + 1]
+            elif how == "int32":
+                for t in (it, ot):
+                    t.dtype, t.scales, t.zps = "int32", [0.5], [0]
+            return o
+        return f
+    for kind in ("RESHAPE", "SQUEEZE", "EXPAND_DIMS"):
+        for how in ("ok", "quant scale", "quant zero point", "no quant", "dynamic shape", "elements", "int32"):
+            if how == "dynamic shape" and kind != "RESHAPE":
+                continue
+            for ifm in ((1, 4, 4, 8), (1, 1, 16, 8)):
+                add(f"{kind} {how} {ifm}", single(rng, reshape_like(kind, how), ifm=ifm))
     for axis in (3, 2, 1, 0, -1):
         def cc(b, x, axis=axis):
             y = b.input(list(b.t(x).shape))
